@@ -200,6 +200,7 @@ def run(tname, b, cc=None, enc=None, strict=True, keep_raw=False, source=None, r
         r.kind, r.details = norm_err(e)
         if isinstance(e, ns.err.ConstraintViolatedError) and e.bytes_remaining is not None:
             try:
+                str(e), repr(e)  # a user prints the diagnosis first; that must not change what the error carries
                 r.remaining = bytes(e.bytes_remaining)
             except Exception as e2:  # noqa: BLE001
                 r.remaining = "ESCAPE:" + type(e2).__name__
